@@ -25,6 +25,11 @@ struct Freed { void* ptr; size_t size; std::vector<uint8_t> content; size_t mz_i
 struct MzCall { void* ptr; size_t len; };
 
 enum KdfMode { KDF_FIXED, KDF_MIX, KDF_NOTOUCH };
+
+// libc interposition counters (only meaningful in binaries linked with -Wl,--wrap=malloc,--wrap=free,--wrap=time; see props/c18)
+struct Wrap { bool enabled = false; bool window = false; int in_stub = 0; uint64_t malloc_calls = 0, free_calls = 0, time_calls = 0; };
+inline Wrap& wrap() { static Wrap w; return w; }
+struct StubScope { StubScope() { wrap().in_stub++; } ~StubScope() { wrap().in_stub--; } };
 enum MzMode { MZ_WIPE, MZ_MARK, MZ_NOOP };
 
 struct Kit {
@@ -40,7 +45,7 @@ struct Kit {
     // --- allocator
     std::map<void*, Block> live; uint64_t alloc_calls = 0, alloc_failed = 0, free_calls = 0, serial = 0;
     uint64_t fail_mask = 0; int fail_pos = 0;       // bit k set -> the k-th request after arming fails (k < 64)
-    bool fail_all = false;
+    bool fail_all = false; bool foreign_ok = false; bool track = true;   // track=false: the matching free is libc's, so the ledger cannot follow the blocks   // foreign_ok: no allocator injected, so the injected free legitimately receives libc blocks
     uint8_t garbage = 0xA7;
     std::vector<Freed> freed; std::vector<std::string> ledger_errors;
     // --- normalisers
@@ -56,7 +61,7 @@ struct Kit {
     }
     void reset_all() {
         reset_logs(); rand_bytes.clear(); rand_pos = 0; clock = 1700000000ull; kdf_mode = KDF_MIX; memset(kdf_fixed, 0, 32); kdf_key_salt = 0;
-        mz_mode = MZ_WIPE; mz_log = true; fail_mask = 0; fail_pos = 0; fail_all = false; garbage = 0xA7; lenient = false; norm_passthrough = false; yield_mode = 0;
+        mz_mode = MZ_WIPE; mz_log = true; fail_mask = 0; fail_pos = 0; fail_all = false; foreign_ok = false; track = true; garbage = 0xA7; lenient = false; norm_passthrough = false; yield_mode = 0;
         // live blocks are NOT dropped: they belong to seeds still held by the test
     }
     void arm_fail(uint64_t mask) { fail_mask = mask; fail_pos = 0; }
@@ -77,36 +82,37 @@ inline void kdf_fill(const Kit& k, const uint8_t* pw, size_t pwlen, const uint8_
 }
 
 template <int S> void f_randbytes(void* out, size_t n) {
-    Kit& k = kit(S); maybe_yield(k); k.rand_calls.push_back(n); k.rand_total += n;
+    StubScope sc_; Kit& k = kit(S); maybe_yield(k); k.rand_calls.push_back(n); k.rand_total += n;
     uint8_t* o = (uint8_t*)out;
     for (size_t i = 0; i < n; i++) { o[i] = k.rand_pos < k.rand_bytes.size() ? k.rand_bytes[k.rand_pos] : (uint8_t)(0x5C + k.rand_pos); k.rand_pos++; }
 }
-template <int S> uint64_t f_time(void) { Kit& k = kit(S); maybe_yield(k); k.time_calls++; return k.clock; }
+template <int S> uint64_t f_time(void) { StubScope sc_; Kit& k = kit(S); maybe_yield(k); k.time_calls++; return k.clock; }
 template <int S> void f_pbkdf2(const uint8_t* pw, size_t pwlen, const uint8_t* salt, size_t saltlen, uint64_t it, uint8_t* key, size_t keylen) {
-    Kit& k = kit(S); maybe_yield(k);
+    StubScope sc_; Kit& k = kit(S); maybe_yield(k);
     KdfCall c; c.pwlen = pwlen; c.saltlen = saltlen; c.iterations = it; c.key = key; c.keylen = keylen; c.pw_ptr = pw;
     c.pw.assign(pw, pw + (pwlen < 4096 ? pwlen : 4096)); c.salt.assign(salt, salt + (saltlen < 4096 ? saltlen : 4096));
     kdf_fill(k, pw, pwlen, salt, saltlen, key, keylen);
     k.kdf.push_back(std::move(c));
 }
 template <int S> void f_memzero(void* const p, const size_t n) {
-    Kit& k = kit(S); k.mz_calls++;
+    StubScope sc_; Kit& k = kit(S); k.mz_calls++;
     if (k.mz_log) k.mz.push_back(MzCall{p, n});
     if (k.mz_mode == MZ_WIPE) memset(p, 0, n); else if (k.mz_mode == MZ_MARK) memset(p, 0xEE, n);
 }
 template <int S> void* f_alloc(size_t n) {
-    Kit& k = kit(S); maybe_yield(k); k.alloc_calls++;
+    StubScope sc_; Kit& k = kit(S); maybe_yield(k); k.alloc_calls++;
     bool fail = k.fail_all || (k.fail_pos < 64 && ((k.fail_mask >> k.fail_pos) & 1)); k.fail_pos++;
     if (fail) { k.alloc_failed++; return nullptr; }
     void* p = malloc(n); if (!p) abort();
     memset(p, k.garbage, n); // fresh memory is never zero
-    k.live[p] = Block{n, ++k.serial};
+    if (k.track) k.live[p] = Block{n, ++k.serial};
     return p;
 }
 template <int S> void f_free(void* p) {
-    Kit& k = kit(S); maybe_yield(k); k.free_calls++;
+    StubScope sc_; Kit& k = kit(S); maybe_yield(k); k.free_calls++;
     auto it = k.live.find(p);
     if (it == k.live.end()) {
+        if (k.foreign_ok) { free(p); return; }
         char b[96]; snprintf(b, sizeof b, "free(%p) in set %d: pointer is not a live block of this allocator%s", p, S, p ? "" : " (NULL)");
         k.ledger_errors.push_back(b); return; // do not pass unknown pointers on
     }
@@ -134,8 +140,8 @@ inline size_t norm_impl(Kit& k, const char* str, polyseed_str out, int opts) {
     memset(o, 0, (size_t)r); free(o); // keep no copy of phrase / password text
     return n;
 }
-template <int S> size_t f_nfc(const char* s, polyseed_str out) { Kit& k = kit(S); maybe_yield(k); k.nfc_calls++; return norm_impl(k, s, out, UTF8PROC_COMPOSE); }
-template <int S> size_t f_nfkd(const char* s, polyseed_str out) { Kit& k = kit(S); maybe_yield(k); k.nfkd_calls++; return norm_impl(k, s, out, UTF8PROC_DECOMPOSE | UTF8PROC_COMPAT); }
+template <int S> size_t f_nfc(const char* s, polyseed_str out) { StubScope sc_; Kit& k = kit(S); maybe_yield(k); k.nfc_calls++; return norm_impl(k, s, out, UTF8PROC_COMPOSE); }
+template <int S> size_t f_nfkd(const char* s, polyseed_str out) { StubScope sc_; Kit& k = kit(S); maybe_yield(k); k.nfkd_calls++; return norm_impl(k, s, out, UTF8PROC_DECOMPOSE | UTF8PROC_COMPAT); }
 
 inline void maybe_yield(Kit& k) {
     if (!k.yield_mode) return;
